@@ -173,6 +173,12 @@ STDIN_CASES = [
     ('match all exec { "sh" "-c" "exit 3" } move "%(dst)s/ok"', 'plain', 75, 'e', False),
     ('match all exec { "sh" "-c" "exit 0" } move "%(dst)s/ok"', 'plain', 0, 'd', True),
     ('match all label "x" move "%(dst)s/ok"', 'plain', 0, 'd', True),
+    # the input of an exec action cannot be prepared: an error for the message, whatever the command would have done
+    ('match all exec stdin body { "sh" "-c" "cat >/dev/null" }', 'b64-bad', 75, 'e', False),
+    ('match all exec stdin body { "sh" "-c" "cat >/dev/null" } move "%(dst)s/ok"', 'b64-bad', 75, 'e', False),
+    ('match all exec stdin { "sh" "-c" "cat >/dev/null" } move "%(dst)s/ok"', 'b64-bad', 0, 'd', True),     # the raw message is piped: fine
+    ('match all exec stdin body { "sh" "-c" "cat >/dev/null" } move "%(dst)s/ok"', 'plain', 0, 'd', True),
+    ('match all attachment { match all exec stdin { "sh" "-c" "cat >/dev/null" } }', 'mime-deep', 75, 'e', False),
 ]
 
 
@@ -261,7 +267,7 @@ def run(ck):
         'evaluations': stats['runs'],
         'distinct_nontrivial': stats['msgs'] + stats['stdin'] + stats['stdin_faults'],
         'rule': 'populations of 1-3 maildirs x 1-7 messages, each message healthy or carrying one defect from {date-bad, b64-bad, mime-deep, mime-noterm, '
-                'dest:nowhere, exec:3, interp, flags-bad}, defect probability 0 / 0.2 / 0.5 / 1, occasionally an unusable maildir; stdin: 12 rule/message '
+                'dest:nowhere, exec:3, interp, flags-bad}, defect probability 0 / 0.2 / 0.5 / 1, occasionally an unusable maildir; stdin: 17 rule/message '
                 'cases and every call index x failure of a stdin delivery. non-trivial = one message verdict (or one stdin run); counted per message',
         'samples': samples,
         'traces_validated_against_impl': stats['runs'],
